@@ -40,6 +40,8 @@ type vecTarget struct {
 	dim  int
 }
 
+const concAnchor = uint32(77777) // a document present from the start of a round and never removed
+
 func cvec(id uint32, dim int) []float32 {
 	v := make([]float32, dim)
 	for i := range v {
@@ -72,11 +74,30 @@ func (t *bmTarget) addAuto() (uint32, error) { return 0, nil }
 func (t *bmTarget) remove(id uint32) error   { return t.idx.Remove(id) }
 func (t *bmTarget) flush() error             { return t.idx.Flush() }
 func (t *bmTarget) writeTo() error           { _, err := t.idx.WriteTo(io.Discard); return err }
+// bm25 searches alternate between a text query and a node-id query on the anchor document (added before the round, never removed)
+var bmFlip atomic.Uint32
+
 func (t *bmTarget) search() ([]uint32, error) {
+	if bmFlip.Add(1)%2 == 0 {
+		rs, err := t.idx.NewSearch().WithNode(concAnchor).WithK(100000).Execute()
+		out := []uint32{}
+		for _, x := range rs {
+			if x.GetId() != concAnchor {
+				out = append(out, x.GetId())
+			}
+		}
+		return out, err
+	}
+	return t.searchText()
+}
+
+func (t *bmTarget) searchText() ([]uint32, error) {
 	rs, err := t.idx.NewSearch().WithQuery("aa").WithK(0).Execute()
 	out := []uint32{}
 	for _, x := range rs {
-		out = append(out, x.GetId())
+		if x.GetId() != concAnchor {
+			out = append(out, x.GetId())
+		}
 	}
 	return out, err
 }
@@ -218,7 +239,9 @@ func newTarget(kind string, rng *rand.Rand) (concTarget, error) {
 		}
 		return &vecTarget{idx, kind, dim}, err
 	case "bm25":
-		return &bmTarget{comet.NewBM25SearchIndex()}, nil
+		bi := comet.NewBM25SearchIndex()
+		bi.Add(concAnchor, "aa anchor")
+		return &bmTarget{bi}, nil
 	case "meta":
 		return &metaTarget{comet.NewRoaringMetadataIndex()}, nil
 	case "hybrid":
